@@ -86,6 +86,10 @@ SPIF_TYPE(strclass) SPIF_STRCLASS_VAR(ustr) = &s_class;
 /* *INDENT-ON* */
 
 const size_t buff_inc = 4096;
+#if defined(LIBAST_VERIF) && defined(LIBAST_VERIF_BUFF_INC)
+/* verification hook: scaled read-chunk size so chunk-boundary arithmetic is within solver reach */
+# define buff_inc ((size_t) LIBAST_VERIF_BUFF_INC)
+#endif
 
 spif_ustr_t
 spif_ustr_new(void)
